@@ -193,18 +193,26 @@ def run(ctx: Ctx, tier: str) -> Result:
             res.fail(Finding("C20.LOAD", lp.qname, a, lp.loc(a), "plugin appended without the is_active() test holding"))
     # the switch itself: a plugin is inactive exactly when its PLUGIN_<NAME> setting is text that reads as false
     ia = ctx.prog.func("deep.api.plugin.Plugin.is_active")
+    from ..dtable import Table
+    itb = Table(ctx, ia)
     rets_ = [r for r in ctx.types.nodes_in(ia, ast.Return) if r.value is not None]
-    conv = [r for r in rets_ if isinstance(r.value, ast.Call) and norm(r.value.func).endswith("str2bool")]
-    trues = [r for r in rets_ if isinstance(r.value, ast.Constant) and r.value.value is True]
-    okia = len(conv) == 1 and len(rets_) == len(conv) + len(trues)
-    if okia:
-        src_ = ctx.expand.expand(conv[0].value.args[0], ia)
-        okia = bool(src_) and all("getattr(@self.config" in x and "plugin_" in x.lower() for x in src_)
-        for r in trues:
-            cs_ = [(norm(c_), pol) for c_, pol in paths.conditions(ctx.prog, r, ia)]
-            okia = okia and len(cs_) == 1 and cs_[0][1] and re.fullmatch(r"\w+ is None", cs_[0][0]) is not None
-        cs2 = [(norm(c_), pol) for c_, pol in paths.conditions(ctx.prog, conv[0], ia)]
-        okia = okia and all((not pol and re.fullmatch(r"\w+ is None", c_) is not None) for c_, pol in cs2)
+    okia = len(itb.rows) >= 2
+    setting = None
+    for r in itb.rows:
+        cs_ = [(norm(c_), pol) for c_, pol in r.conds]
+        if r.kind != "return" or r.result is None or len(cs_) != 1 or not cs_[0][0].endswith(" is None"):
+            okia = False
+            break
+        subj = cs_[0][0][: -len(" is None")]
+        setting = setting or subj
+        if subj != setting or "getattr(@self.config" not in subj or "plugin_" not in subj.lower():
+            okia = False
+        elif cs_[0][1]:
+            okia = okia and isinstance(r.result, ast.Constant) and r.result.value is True
+        else:
+            # the truth of the text: str2bool(setting) (possibly inlined as `.lower() in (...)`)
+            txt = norm(r.result)
+            okia = okia and (txt == "deep.utils.str2bool(%s)" % subj or txt.startswith(subj + ".lower() in ") or txt.startswith("str(%s).lower() in " % subj))
     if okia:
         res.ok("C20.LOAD", {"is_active": "str2bool(PLUGIN_<NAME> setting), active when the setting is absent"})
     else:
